@@ -379,7 +379,7 @@ func wantUnder(c *kit.Ctx, prefix string) bool {
 
 // ---- fault enumeration ----
 
-var faultOutcomes = []sim.Outcome{sim.ServerError, sim.Timeout, sim.ErrorAfter}
+var faultOutcomes = []sim.Outcome{sim.ServerError, sim.Timeout, sim.ErrorAfter, sim.NotServed, sim.Unavailable}
 
 // enumerate hits every call index of op (run on a fork of base) with every outcome, then
 // retries the op without faults and compares the resulting ownership state with the
